@@ -289,6 +289,45 @@ def float_checks(ck, rng, quick):
                 ck.violation(f"TEXTTABLE range {lo} .. {hi} (A_FLOAT64): is_valid_internal_value({x!r}) = {got}, "
                              f"text {r!r} {e!r}; the limits say {want}", {"compu": c, "values": [x], "float": True})
                 return
+    # byte field ranges of a text table: byte fields compare like numbers written to the same length (the shorter one
+    # padded with zero bytes at the end)
+    def bcmp(a, b):
+        ln = max(len(a), len(b))
+        a, b = a.ljust(ln, b"\0"), b.ljust(ln, b"\0")
+        return (a > b) - (a < b)
+
+    def binside(x, lo, hi):
+        lo_v, lo_t = bytes.fromhex(lo[0]), lo[1]
+        hi_v, hi_t = bytes.fromhex(hi[0]), hi[1]
+        return (bcmp(x, lo_v) > 0 or (lo_t != 0 and bcmp(x, lo_v) == 0)) and (bcmp(x, hi_v) < 0 or (hi_t != 0 and bcmp(x, hi_v) == 0))
+    for _ in range(6 if quick else 60):
+        mid = rng.choice(["1F", "20", "1F00", "7F"])
+        s1 = dict(lo=("1000", rng.choice([0, 1])), hi=(mid, rng.choice([0, 1])), const="low", inv=None)
+        s2 = dict(lo=(mid, 1 - s1["hi"][1]), hi=("2FFF", rng.choice([0, 1])), const="high", inv=None)
+        c = dict(k="texttable", it="A_BYTEFIELD", pt="A_UNICODE2STRING", scales=[s1, s2], pdef=None, idef=None)
+        try:
+            cm = load_compu(c)
+        except Exception as e:  # noqa
+            ck.note_broken(f"byte field TEXTTABLE does not load: {type(e).__name__}: {e}")
+            break
+        probes = set()
+        for h in ("1000", mid, "2FFF"):
+            v = bytes.fromhex(h)
+            probes |= {v, v + b"\0", v + b"\0\0", v.rstrip(b"\0") or b"\0", v + b"\1", v[:-1] + bytes([max(v[-1] - 1, 0)]) + b"\xff",
+                       v[:-1] + bytes([min(v[-1] + 1, 255)])}
+        probes |= {b"\x0f\xff", b"\x30", b"\x10", b"\x2f\xff\x00\x00"}
+        for x in sorted(probes):
+            n += 1
+            ck.count(("bytefield-text", repr(c), x))
+            in1, in2 = binside(x, s1["lo"], s1["hi"]), binside(x, s2["lo"], s2["hi"])
+            want = "low" if in1 else ("high" if in2 else None)
+            got_v = call(cm.is_valid_internal_value, x)
+            r, e, _ = cc.guarded(lambda: cm.convert_internal_to_physical(x))
+            if got_v != (want is not None) or (want is not None and r != want):
+                ck.violation(f"TEXTTABLE over byte fields {s1['lo']}..{s1['hi']} 'low', {s2['lo']}..{s2['hi']} 'high': internal value "
+                             f"{x.hex()} is declared valid = {got_v} and converts to {r!r} {e!r}; zero-padded comparison says {want!r}",
+                             {"compu": c, "values": [x.hex()], "float": True})
+                return
     # (b) monotone continuous piecewise-linear methods with decimal coefficients can always encode
     for _ in range(25 if quick else 300):
         nseg = rng.choice([2, 2, 3])
